@@ -393,6 +393,8 @@ def run_main(ctx):
 
 def replay(ctx, failure):
     case = failure['case']
+    if case.get('late_stream'):
+        return dict(failures=[dict(signature=f['signature'], detail=f['detail']) for f in late_emission_stream()])
     if 'program' in case:
         from harness import pm_prop
         return pm_prop.replay_pm(ctx, failure, ['c12pm'])
@@ -413,6 +415,46 @@ def replay(ctx, failure):
                 failures=[dict(signature=f['signature'], detail=f['detail']) for f in fails])
 
 
+def late_emission_stream():
+    """impl-only: a value that out() stores from a finishing hook (an `on_finish` override emitting after super()) is part of the
+    outputs, so it is in what the future and the listeners report"""
+    common.ensure_repo_on_path()
+    import plumpy
+    fails = []
+    for nested in (False, True):
+        class Lis(plumpy.ProcessListener):
+            def __init__(self):
+                super().__init__()
+                self.finished = None
+
+            def on_process_finished(self, process, outputs):
+                self.finished = pg.from_py(outputs)
+
+        class Late(plumpy.Process):
+            @classmethod
+            def define(cls, spec):
+                super().define(spec)
+                spec.outputs.dynamic = True
+
+            def run(self):
+                self.out('a', 1)
+
+            def on_finish(self, result, successful):
+                super().on_finish(result, successful)
+                self.out('ns.late' if nested else 'late', 2)
+        lis = Lis()
+        p = Late(loop=_loop())
+        p.add_process_listener(lis)
+        p.execute()
+        stored, fut = pg.from_py(p.outputs), pg.from_py(p.future().result())
+        if not (stored == fut == lis.finished):
+            fails.append(dict(signature='late-output-not-reported', clause='stored values are exactly what the outputs, the process future '
+                              'and listeners later report', detail=dict(stored=pg.show_ref(stored), future=pg.show_ref(fut),
+                                                                        listener=pg.show_ref(lis.finished) if lis.finished else None),
+                              case=dict(late_stream=True, nested=nested)))
+    return fails
+
+
 def run(ctx):
     """the emission / finish-time streams above, plus the missing-output program of the process-control harness under
     every placement of pause / play / future cancellation (the finish-time rule must not depend on the schedule)"""
@@ -424,4 +466,6 @@ def run(ctx):
     out['failures'].extend(sub['failures'])
     out['divergences'].extend(sub['divergences'])
     out.setdefault('histograms', {})['missing_output_under_schedules'] = dict(cases=sub['evaluations'])
+    out['failures'].extend(late_emission_stream())
+    out['evaluations'] += 2
     return out
